@@ -1,9 +1,10 @@
 // C01 driver: replays TLC-generated framing behaviours (spec/Framing.tla: a packet sequence plus the
 // transport's chunking decisions) on the real stream.StreamProcessor: every packet is written with the
 // real WritePacket into a buffer, the bytes are served to a second real StreamProcessor through a
-// chunk-controlled io.Reader (thorough tier: also through a real WebSocket connection pair of
-// adapter.WebSocketAdapter, one message per chunk), and every ReadPacket result is recorded for the
-// judge (spec/FramingTrace.tla).
+// chunk-controlled io.Reader, or through a real transport of the adapters (transports.go): a WebSocket pair
+// (message-transport behaviours of the model: the peer's message partition, remainders kept by wsServerConn /
+// wsClientConn; also the real writer writing straight onto the wrapper), loopback QUIC and KCP connections;
+// every ReadPacket result is recorded for the judge (spec/FramingTrace.tla).
 package main
 
 import (
@@ -11,13 +12,16 @@ import (
 	"compress/gzip"
 	"context"
 	"encoding/json"
+	"errors"
 	"fmt"
 	"hash/fnv"
 	"io"
 	"math/rand"
 	"net"
 	"reflect"
+	"strings"
 	"sync"
+	"sync/atomic"
 	"time"
 
 	corelog "tunnox-core/internal/core/log"
@@ -51,12 +55,13 @@ type absBeh struct {
 }
 type concPkt struct {
 	absPkt
+	Rate    int64  `json:"rate"`    // rateLimitBytesPerSecond handed to WritePacket (0 = none)
 	Type    byte   `json:"type"`    // concrete packet type code
 	Size    int    `json:"size"`    // concrete body size (payload bytes / CommandBody bytes)
 	Content string `json:"content"` // concrete body content class (payload kinds)
 }
 type concBeh struct {
-	Transport string    `json:"transport"` // reader | ws-c2s | ws-s2c
+	Transport string    `json:"transport"` // reader | ws-c2s | ws-s2c | ws-c2s-w | ws-s2c-w | quic | kcp (transports.go)
 	Pkts      []concPkt `json:"pkts"`
 	Reads     []absRead `json:"reads"`
 	Map       string    `json:"map"` // how abstract body cuts are placed in the real body: prop | head | tail
@@ -84,6 +89,7 @@ var contents = []string{"zeros", "random", "gzmagic", "gzstream", "hdrlike", "pe
 func concretise(a absBeh, r *rand.Rand, transport string) concBeh {
 	c := concBeh{Transport: transport, Reads: a.Reads, Map: []string{"prop", "head", "tail"}[r.Intn(3)], Salt: r.Int63()}
 	sameSize := r.Intn(2) == 0 // packets of one abstract length share one concrete size (same buffer-pool bucket)
+	rated := r.Intn(8) == 0    // WritePacket is called with a rate limit (bodies then go out in 1 KiB writes)
 	chosen := map[int]int{}
 	for _, p := range a.Pkts {
 		cp := concPkt{absPkt: p}
@@ -104,6 +110,9 @@ func concretise(a absBeh, r *rand.Rand, transport string) concBeh {
 			cp.Size = v
 		}
 		chosen[p.Len] = cp.Size
+		if p.K != "HB" && cp.Size > 0 && cp.Size <= 70001 && rated {
+			cp.Rate = 64 << 20 // the writer's rate-limited body path (1 KiB writes); fast enough not to wait noticeably
+		}
 		if p.K == "PAY" && p.Len > 0 {
 			cp.Content = p.C
 			if cp.Content == "" || cp.Content == "any" {
@@ -353,6 +362,10 @@ func msgChunks(b concBeh, sizes []int) []int {
 		if rd.F != "M" {
 			continue
 		}
+		if rd.N == 0 { // an empty message (the wrapper answers it with an empty read)
+			chunks = append(chunks, 0)
+			continue
+		}
 		apos += rd.N
 		// locate apos
 		i, rest := 0, apos
@@ -579,15 +592,19 @@ func (c *chunkReader) Read(p []byte) (int, error) {
 
 // countingReader measures what a reader really pulled from a transport.
 type countingReader struct {
-	r     io.Reader
-	n     int
-	calls int
+	r        io.Reader
+	n        int
+	calls    int
+	progress int64 // = n, readable from the watchdog (atomic)
 }
 
 func (c *countingReader) Read(p []byte) (int, error) {
 	n, err := c.r.Read(p)
 	c.n += n
 	c.calls++
+	if n > 0 {
+		atomic.AddInt64(&c.progress, int64(n))
+	}
 	return n, err
 }
 
@@ -649,21 +666,26 @@ func drive(env *fw.Env, b fw.Behaviour) *fw.Trace {
 	ctx, cancel := context.WithCancel(context.Background())
 	defer cancel()
 	t := &fw.Trace{Status: fw.Realised}
+	tr := beh.Transport
 
-	// 1. write with the real writer
-	var wire bytes.Buffer
-	wsp := stream.NewStreamProcessor(bytes.NewReader(nil), &wire, ctx)
 	pp := perPacket(beh)
-	orig := make([]*packet.TransferPacket, len(beh.Pkts))
-	var pl planner
-	exact := true
 	isMsg := msgBehaviour(beh)
-	var encSizes []int
+	orig := make([]*packet.TransferPacket, len(beh.Pkts))
 	for i, p := range beh.Pkts {
 		orig[i] = build(p, r)
-		before := wire.Len()
-		n, err := wsp.WritePacket(orig[i], p.Z, 0)
-		wrote := wire.Len() - before
+	}
+	cutName := func(i int) string {
+		c := cutOf(isMsg, pp[i])
+		if direct(tr) {
+			c = "writer-msgs"
+		}
+		if tr != "reader" {
+			c += "@" + tr
+		}
+		return c
+	}
+	writeEvent := func(i int, n, wrote int, err error) fw.Event {
+		p := beh.Pkts[i]
 		cls := fmt.Sprintf("len=%s:%s:z=%v", sizeClass(p.Size), p.K, p.Z)
 		if p.Content != "" {
 			cls += ":c=" + p.Content
@@ -676,55 +698,146 @@ func drive(env *fw.Env, b fw.Behaviour) *fw.Trace {
 			fl = p.Fl
 			cls += ":fl=" + fl
 		}
-		t.Events = append(t.Events, fw.Event{"ev": "Write", "i": i + 1, "ok": err == nil, "cls": cls, "cut": cutOf(isMsg, pp[i]),
-			"base": int(p.Type & 0x3F), "len": p.Size, "n": n, "wrote": wrote, "type": int(orig[i].PacketType), "fl": fl})
-		if err != nil {
-			wire.Truncate(before)
-			continue
+		if p.Rate > 0 {
+			cls += ":rate"
 		}
-		encSizes = append(encSizes, wrote)
-		ops, ex := opsFor(p, pp[i], wrote, beh.Map)
-		exact = exact && ex
-		pl.packet(ops, wrote)
+		return fw.Event{"ev": "Write", "i": i + 1, "ok": err == nil, "cls": cls, "cut": cutName(i),
+			"base": int(p.Type & 0x3F), "len": p.Size, "n": n, "wrote": wrote, "type": int(orig[i].PacketType), "fl": fl}
 	}
-	chunks := pl.finish()
-	if isMsg {
-		if len(encSizes) != len(beh.Pkts) {
-			return &fw.Trace{Status: fw.Unrealisable, Note: "the writer refused a packet of a message-transport behaviour"}
+
+	// 1. write with the real writer: into a buffer that is then cut into chunks / messages by the plan, or (direct
+	//    transports) straight onto the sending WebSocket wrapper while the reader is already reading
+	var wire bytes.Buffer
+	var wsp *stream.StreamProcessor
+	var chunks []int
+	exact := true
+	accepted := 0
+	if !direct(tr) {
+		wsp = stream.NewStreamProcessor(bytes.NewReader(nil), &wire, ctx)
+		var pl planner
+		var encSizes []int
+		for i, p := range beh.Pkts {
+			before := wire.Len()
+			n, err := wsp.WritePacket(orig[i], p.Z, p.Rate)
+			wrote := wire.Len() - before
+			t.Events = append(t.Events, writeEvent(i, n, wrote, err))
+			if err != nil {
+				wire.Truncate(before)
+				continue
+			}
+			encSizes = append(encSizes, wrote)
+			ops, ex := opsFor(p, pp[i], wrote, beh.Map)
+			exact = exact && ex
+			pl.packet(ops, wrote)
 		}
-		chunks, exact = msgChunks(beh, encSizes), false
+		accepted = len(encSizes)
+		chunks = pl.finish()
+		if isMsg {
+			if len(encSizes) != len(beh.Pkts) {
+				return &fw.Trace{Status: fw.Unrealisable, Note: "the writer refused a packet of a message-transport behaviour"}
+			}
+			chunks, exact = msgChunks(beh, encSizes), false
+		}
+		if datagram(tr) && wire.Len() == 0 { // nothing to send: the acceptor would never see the connection
+			tr = "reader"
+		}
 	}
-	data := wire.Bytes()
 
 	// 2. read with the real reader through the chosen transport
 	var src io.Reader
-	var cr *chunkReader
 	var cleanup func()
-	switch beh.Transport {
-	case "reader":
-		cr = &chunkReader{data: data, chunks: chunks}
-		src = cr
-	case "ws-c2s", "ws-s2c":
+	closeReadEnd := func() {}    // direct transports: close the connection end the reader reads from
+	lateClose := func() {}       // transports whose sender cannot end the stream cleanly: closed by the driver once everything was read
+	wdone := make(chan struct{}) // the sender has handed everything to the transport
+	var werr error               // direct transports: the first WritePacket error
+	var wevents []fw.Event       // direct transports: the Write events (made by the sender goroutine)
+	var tee *teeWriter           // direct transports: counts what the writer has put on the connection
+	total := func() int {        // bytes of the whole stream (direct transports: so far)
+		if tee != nil {
+			return int(atomic.LoadInt64(&tee.n))
+		}
+		return wire.Len()
+	}
+	senderDone := func() bool { // has the sender handed everything over? (margin 5 s: only asked when it should have)
+		select {
+		case <-wdone:
+			return true
+		case <-time.After(5 * time.Second):
+			return false
+		}
+	}
+	sendChunks := func(from io.Writer, skipEmpty bool) error {
+		data := wire.Bytes()
+		off := 0
+		for _, c := range chunks {
+			if c == 0 && skipEmpty {
+				continue
+			}
+			if _, err := from.Write(data[off : off+c]); err != nil {
+				return err
+			}
+			off += c
+		}
+		return nil
+	}
+	switch {
+	case tr == "reader":
+		src = &chunkReader{data: wire.Bytes(), chunks: chunks}
+		close(wdone)
+	case isWS(tr):
 		client, server, err := ws.pair()
 		if err != nil {
 			return &fw.Trace{Status: fw.DriverError, Note: "websocket pair: " + err.Error()}
 		}
 		from, to := client, server
-		if beh.Transport == "ws-s2c" {
+		if tr == "ws-s2c" || tr == "ws-s2c-w" {
 			from, to = server, client
 		}
 		cleanup = func() { from.Close(); to.Close() }
-		go func() { // one message per chunk, then a normal close
-			off := 0
-			for _, c := range chunks {
-				if _, err := from.Write(data[off : off+c]); err != nil {
-					return
+		closeReadEnd = func() { to.Close() }
+		if direct(tr) {
+			tee = &teeWriter{rec: &wire, to: from}
+			wsp = stream.NewStreamProcessor(bytes.NewReader(nil), tee, ctx)
+			go func() { // the real writer, one WebSocket message per Write call of WritePacket, then a normal close
+				defer close(wdone)
+				for i, p := range beh.Pkts {
+					before := total()
+					n, err := wsp.WritePacket(orig[i], p.Z, p.Rate)
+					wevents = append(wevents, writeEvent(i, n, total()-before, err))
+					if err != nil {
+						werr = err
+						break
+					}
+					accepted++
 				}
-				off += c
-			}
-			from.Close()
-		}()
+				from.Close()
+			}()
+		} else {
+			go func() { // one message per chunk (an empty chunk is an empty message), then a normal close
+				defer close(wdone)
+				if sendChunks(from, false) == nil {
+					from.Close()
+				}
+			}()
+		}
 		src = to
+	case datagram(tr):
+		client, server, err := dg.pair(tr, func(c io.ReadWriteCloser) {
+			go func() { // one Write per chunk; the connection stays open until the reader is done
+				defer close(wdone)
+				sendChunks(c, true)
+			}()
+		})
+		if errors.Is(err, errSlow) {
+			return &fw.Trace{Status: fw.Inconclusive, Note: tr + ": " + err.Error()}
+		}
+		if err != nil {
+			return &fw.Trace{Status: fw.DriverError, Note: tr + " pair: " + err.Error()}
+		}
+		var once sync.Once
+		lateClose = func() { once.Do(func() { server.Close(); client.Close() }) }
+		cleanup = lateClose
+		src = server
 	default:
 		return &fw.Trace{Status: fw.DriverError, Note: "transport?"}
 	}
@@ -754,13 +867,26 @@ func drive(env *fw.Env, b fw.Behaviour) *fw.Trace {
 		}
 		var endEv fw.Event
 		for k := 0; k < len(beh.Pkts)+3; k++ {
+			if datagram(tr) && idx >= accepted { // everything written has been read: end the stream from here
+				senderDone()
+				lateClose()
+			}
 			before := cnt.n
 			pkt, ret, err := rsp.ReadPacket()
 			consumed := cnt.n - before
 			if err != nil {
-				if before == len(data) && consumed == 0 { // nothing left: the reader's end-of-stream report
-					ev := fw.Event{"ev": "Eof", "rest": len(data) - cnt.n, "msg": err.Error()}
-					if exact && beh.Transport == "reader" { // binding information (never judged): Read calls made vs. the model's reader
+				// the reader's end-of-stream report: the sender is done (it closes right after its last byte), every
+				// byte of the stream had been read before this call and the call itself got nothing
+				refusal := idx < len(beh.Pkts) && beh.Pkts[idx].flagged() && consumed > 0 // (an end report takes no bytes)
+				if direct(tr) && !refusal {
+					// the reader is at its end - or failed early while the writer is still blocked in a Write: closing
+					// the reading end releases it, so that the length of the stream is known
+					closeReadEnd()
+					<-wdone
+				}
+				if before == total() && consumed == 0 {
+					ev := fw.Event{"ev": "Eof", "rest": total() - cnt.n, "msg": err.Error()}
+					if exact && tr == "reader" { // binding information (never judged): Read calls made vs. the model's reader
 						ev["calls"], ev["modelCalls"] = cnt.calls, len(beh.Reads)+1
 					}
 					endEv = ev
@@ -808,18 +934,50 @@ func drive(env *fw.Env, b fw.Behaviour) *fw.Trace {
 		}
 		done <- result{evs}
 	}()
+	// watchdog: the reader hangs if it has not taken a single byte from the transport for wd (all transports are
+	// loss-free and the stream is finite, so a slow machine still shows progress), or is still not done after 6 * wd
 	wd := 30 * time.Second
 	if env.Tier == "thorough" {
 		wd = 120 * time.Second
 	}
-	select {
-	case res := <-done:
-		t.Events = append(t.Events, res.events...)
-	case <-time.After(wd):
-		t.Events = append(t.Events, fw.Event{"ev": "Err", "kind": "timeout", "msg": "ReadPacket loop did not finish", "consumed": 0})
+	var res result
+	timedOut := false
+	started, lastMove, lastN := time.Now(), time.Now(), int64(-1)
+	tick := time.NewTicker(500 * time.Millisecond)
+	defer tick.Stop()
+wait:
+	for {
+		select {
+		case res = <-done:
+			break wait
+		case now := <-tick.C:
+			if n := atomic.LoadInt64(&cnt.progress); n != lastN {
+				lastN, lastMove = n, now
+			}
+			if now.Sub(lastMove) > wd || now.Sub(started) > 6*wd {
+				timedOut = true
+				break wait
+			}
+		}
 	}
 	if cleanup != nil {
 		cleanup()
+	}
+	if direct(tr) { // the Write events were made by the sender goroutine; they open the trace
+		select {
+		case <-wdone:
+		case <-time.After(10 * time.Second):
+			return &fw.Trace{Status: fw.Inconclusive, Note: "the direct writer did not finish after the connection was closed"}
+		}
+		if werr != nil {
+			return &fw.Trace{Status: fw.Unrealisable, Note: "direct transport: WritePacket failed on the live connection: " + werr.Error()}
+		}
+		t.Events = append(t.Events, wevents...)
+	}
+	if timedOut {
+		t.Events = append(t.Events, fw.Event{"ev": "Err", "kind": "timeout", "msg": "ReadPacket loop did not finish", "consumed": 0})
+	} else {
+		t.Events = append(t.Events, res.events...)
 	}
 	wsp.Close()
 	rsp.Close()
@@ -839,12 +997,15 @@ func substContent(pk, ln int) map[string]string {
 	return m
 }
 
-// substMsg: message transport with left-over buffering (WebSocket): the peer's message sizes are the transport's choice
-func substMsg(pk, ln int) map[string]string {
-	m := subst(pk, ln, 0)
+// substMsg: message transport with left-over buffering (WebSocket): the peer's message sizes are the transport's choice;
+// st = empty messages the peer may send in between
+func substMsg(pk, ln, st int) map[string]string {
+	m := subst(pk, ln, st)
 	m["CHUNK"] = "msg"
 	return m
 }
+
+func msgSource(src string) bool { return strings.Contains(src, ":msg") }
 
 const allFlags = `{"none", "enc", "zpre"}`
 
@@ -941,6 +1102,45 @@ func extra(env *fw.Env) []json.RawMessage {
 					}
 					out = append(out, fw.MustJSON(b))
 				}
+			}
+		}
+	}
+	// message transport, long histories on ONE connection (instances of the model's Chunking = "msg" behaviours that do
+	// not depend on what the simulation drew): five packets, the peer's messages are whole packets / pairs of packets /
+	// everything at once / whole packets shifted by 1..4 bytes - every message but the last leaves a remainder in the
+	// wrapper, the remainders growing and shrinking; through both wrappers
+	for _, tr := range []string{"ws-c2s", "ws-s2c"} {
+		for shape := 0; shape < 6; shape++ {
+			for _, big := range []bool{false, true} {
+				salt++
+				b := concBeh{Transport: tr, Map: "prop", Salt: salt}
+				szs := []int{10, 40, 25, 300, 7}
+				if big {
+					szs = []int{5000, 100, 33000, 4096, 70001}
+				}
+				total := 0
+				for i, n := range szs {
+					b.Pkts = append(b.Pkts, concPkt{absPkt: absPkt{K: "PAY", Len: 2}, Type: payTypes[(i+shape)%len(payTypes)], Size: n, Content: contents[(i+shape)%len(contents)]})
+					total += 7
+				}
+				var ms []int
+				switch shape {
+				case 0: // one message per packet
+					ms = []int{7, 7, 7, 7, 7}
+				case 1: // two packets per message
+					ms = []int{14, 14, 7}
+				case 2: // everything in one message
+					ms = []int{total}
+				default: // packet-sized messages shifted by shape-2 bytes (cuts inside the length field / at the body start)
+					ms = []int{shape - 2, 7, 7, 7, 7, 7 - (shape - 2)}
+				}
+				for _, m := range ms {
+					b.Reads = append(b.Reads, absRead{"M", m})
+				}
+				for range szs {
+					b.Reads = append(b.Reads, absRead{"T", 1}, absRead{"L", 4}, absRead{"B", 2})
+				}
+				out = append(out, fw.MustJSON(b))
 			}
 		}
 	}
@@ -1085,25 +1285,43 @@ func main() {
 		ID:        "C01",
 		DesignRef: "DESIGN.md §5 C01",
 		ModelJobs: func(env *fw.Env) []fw.TLCJob {
-			pk, ln, msgLen := 2, 3, 1
+			pk, ln, msgFlags := 2, 3, `{"none"}`
 			if env.Tier == "thorough" {
-				msgLen = 2
+				msgFlags = allFlags
 				pk, ln = 3, 2 // with the flag dimension 3x3 is 4.2M states (10 min); 3x2 keeps thorough in minutes
 			}
-			return []fw.TLCJob{
-				{Name: "mc:contract", Module: "Framing", Cfg: "Framing_mc.cfg", Consts: subst(pk, ln, 1)},
-				{Name: "mc:as-found", Module: "Framing", Cfg: "Framing_mc_dev.cfg", Consts: subst(pk, ln, 1)},
-				{Name: "mc:msg-transport", Module: "Framing", Cfg: "Framing_mc.cfg", Consts: substMsg(2, msgLen)},
+			with := func(m map[string]string, flags string) map[string]string { m["MCFLAGS"] = flags; return m }
+			wsdev := func(name, devs string) fw.TLCJob {
+				m := subst(2, 2, 1)
+				m["DEVS"] = devs
+				return fw.TLCJob{Name: "mc:ws-dev:" + name, Module: "Framing", Cfg: "Framing_mc_wsdev.cfg", Consts: m}
 			}
+			jobs := []fw.TLCJob{
+				{Name: "mc:contract", Module: "Framing", Cfg: "Framing_mc.cfg", Consts: with(subst(pk, ln, 1), allFlags)},
+				{Name: "mc:as-found", Module: "Framing", Cfg: "Framing_mc_dev.cfg", Consts: subst(pk, ln, 1)},
+				// the WebSocket wrapper model: every partition of the stream into messages (incl. one empty message)
+				{Name: "mc:msg-transport", Module: "Framing", Cfg: "Framing_mc.cfg", Consts: with(substMsg(2, 2, 1), msgFlags)},
+			}
+			if env.Tier == "thorough" { // the named wrapper deviations are the only routes to a violation on the message transport
+				for i := range jobs { // 1.8 M states: a minute on a free machine, close to the default 10 min on a heavily loaded one
+					jobs[i].Timeout = 25 * time.Minute
+				}
+				jobs = append(jobs, wsdev("stale", `{"wsStaleOffset"}`), wsdev("keepwhole", `{"wsKeepWhole"}`),
+					wsdev("drop+emptyeof", `{"wsDropRemainder", "wsEmptyIsEof"}`))
+			}
+			return jobs
 		},
 		GenJobs: func(env *fw.Env) []fw.TLCJob {
 			jobs := []fw.TLCJob{
 				{Name: "gen:2x1", Module: "Framing", Cfg: "Framing_gen.cfg", Consts: subst(2, 1, 0), Workers: 8},
 				{Name: "gen:1x3+stall", Module: "Framing", Cfg: "Framing_gen.cfg", Consts: subst(1, 3, 1), Workers: 8},
 				{Name: "gen:content2x1", Module: "Framing", Cfg: "Framing_gen.cfg", Consts: substContent(2, 1), Workers: 4},
-				{Name: "gen:msg1x2", Module: "Framing", Cfg: "Framing_gen.cfg", Consts: substMsg(1, 2), Workers: 4},
-				{Name: "sim:msg3x2", Module: "Framing", Cfg: "Framing_gen.cfg", Consts: substMsg(3, 2), Workers: 4,
-					Simulate: "num=150", Depth: 80, Seed: env.Seed + 7},
+				// message transport (WebSocket wrappers): every partition of one packet into messages; the same with one
+				// empty message anywhere; random long histories on one connection (many remainders, one after the other)
+				// (quick: all 674 partitions without an empty message, a seeded fifth of the 2722 with one - see Expand)
+				{Name: "gen:msg1x2+empty", Module: "Framing", Cfg: "Framing_gen.cfg", Consts: substMsg(1, 2, 1), Workers: 4},
+				{Name: "sim:msg4x3", Module: "Framing", Cfg: "Framing_gen.cfg", Consts: substMsg(4, 3, 1), Workers: 4,
+					Simulate: "num=200", Depth: 120, Seed: env.Seed + 7},
 				{Name: "gen:flags2x1", Module: "Framing", Cfg: "Framing_gen.cfg", Consts: substFlags(2, 1, 0, "max"), Workers: 4},
 				{Name: "sim:3x3+stall", Module: "Framing", Cfg: "Framing_gen.cfg", Consts: substFlags(3, 3, 1, "all"), Workers: 4,
 					Simulate: "num=300", Depth: 80, Seed: env.Seed},
@@ -1111,6 +1329,9 @@ func main() {
 			if env.Tier == "thorough" {
 				jobs = append(jobs,
 					fw.TLCJob{Name: "gen:2x2+stall", Module: "Framing", Cfg: "Framing_gen.cfg", Consts: subst(2, 2, 1), Workers: 12, Heap: "12g"},
+					fw.TLCJob{Name: "gen:msg1x3+empty", Module: "Framing", Cfg: "Framing_gen.cfg", Consts: substMsg(1, 3, 1), Workers: 4},
+					fw.TLCJob{Name: "sim:msg6x3", Module: "Framing", Cfg: "Framing_gen.cfg", Consts: substMsg(6, 3, 1), Workers: 4,
+						Simulate: "num=1500", Depth: 200, Seed: env.Seed + 11},
 					fw.TLCJob{Name: "sim:4x3+stall", Module: "Framing", Cfg: "Framing_gen.cfg", Consts: substFlags(4, 3, 1, "all"), Workers: 4,
 						Simulate: "num=2000", Depth: 120, Seed: env.Seed + 1})
 			}
@@ -1118,9 +1339,26 @@ func main() {
 		},
 		MaxBeh: func(env *fw.Env) int {
 			if env.Tier == "thorough" {
-				return 60000
+				return 90000
 			}
-			return 6000
+			return 9000
+		},
+		MaxBehSrc: func(env *fw.Env, src string) int { // quick: the message-transport sources are driven completely
+			if env.Tier == "thorough" { // only the huge stream enumeration is sampled; the message-transport sources are driven completely
+				if src == "gen:2x2+stall" {
+					return 40000
+				}
+				return 0
+			}
+			switch src {
+			case "gen:2x1":
+				return 3000
+			case "gen:1x3+stall":
+				return 1000
+			case "gen:flags2x1":
+				return 400
+			}
+			return 0
 		},
 		Expand: func(env *fw.Env, src string, raw json.RawMessage) []json.RawMessage {
 			var a absBeh
@@ -1128,15 +1366,31 @@ func main() {
 				panic(err)
 			}
 			r := rand.New(rand.NewSource(env.Seed*1000003 + hashOf(raw)))
-			if src == "gen:msg1x2" || src == "sim:msg3x2" { // message transport: mostly through the real WebSocket wrappers, in every tier
+			if msgSource(src) { // message transport: mostly through the real WebSocket wrappers, in every tier
+				if env.Tier != "thorough" && src == "gen:msg1x2+empty" {
+					for _, rd := range a.Reads {
+						if rd.F == "M" && rd.N == 0 && r.Intn(5) != 0 {
+							return nil
+						}
+					}
+				}
 				tr := []string{"ws-c2s", "ws-s2c", "ws-c2s", "ws-s2c", "reader"}[r.Intn(5)]
 				return []json.RawMessage{fw.MustJSON(concretise(a, r, tr))}
 			}
-			out := []json.RawMessage{fw.MustJSON(concretise(a, r, "reader"))}
-			if env.Tier == "thorough" && r.Intn(8) == 0 {
-				out = append(out, fw.MustJSON(concretise(a, r, []string{"ws-c2s", "ws-s2c"}[r.Intn(2)])))
+			// stream chunkings: the chunk-controlled reader; a share of them through the other real transports too
+			// (the real writer straight onto a WebSocket wrapper, loopback QUIC and KCP connections of the adapters)
+			others := []string{"ws-c2s-w", "ws-s2c-w", "quic", "kcp"}
+			if env.Tier == "thorough" {
+				out := []json.RawMessage{fw.MustJSON(concretise(a, r, "reader"))}
+				if k := r.Intn(24); k < 6 {
+					out = append(out, fw.MustJSON(concretise(a, r, append(others, "ws-c2s", "ws-s2c")[k])))
+				}
+				return out
 			}
-			return out
+			if k := r.Intn(40); k < len(others) {
+				return []json.RawMessage{fw.MustJSON(concretise(a, r, others[k]))}
+			}
+			return []json.RawMessage{fw.MustJSON(concretise(a, r, "reader"))}
 		},
 		ExtraBeh:    extra,
 		Drive:       drive,
@@ -1154,11 +1408,13 @@ func main() {
 			}
 			return n >= 1
 		},
-		Rule: "every packet sequence (<=2 packets x HB/CMD/PAY x compression x abstract length 0..1, and 1 packet x length 0..3 with one empty read) x EVERY chunking of the reference reader's reads, enumerated by TLC from spec/Framing.tla, plus seeded random 3-4 packet behaviours; each concretised (seeded) to real packet types/sizes and replayed on the real StreamProcessor; non-trivial = at least one packet decoded",
+		Rule: "every packet sequence (<=2 packets x HB/CMD/PAY x compression x abstract length 0..1, and 1 packet x length 0..3 with one empty read) x EVERY chunking of the reference reader's reads, enumerated by TLC from spec/Framing.tla, plus every partition of one packet into WebSocket messages (with and without an empty message) and seeded random 3-4 packet behaviours (stream and message transport); each concretised (seeded) to real packet types/sizes and replayed on the real StreamProcessor; non-trivial = at least one packet decoded",
 		Assumptions: []string{
 			"abstract cut positions are mapped into the real body proportionally / at the head / at the tail (seeded); cuts inside the 4-byte length are exact",
 			"a writer-preset encrypted flag (0x80) is generated (fl=enc): the reader rejects that packet by design, and the judge demands only that it is consumed exactly and the packets after it still round-trip; JsonCommand/CommandResp always carry a CommandPacket (Appendix B)",
-			"QUIC/KCP are stream transports and are represented by the chunk-controlled reader; the WebSocket pair (thorough) is the real adapter over loopback"},
-		TrustedBase: []string{"TLC", "spec/FramingTrace.tla as the reading of C01", "byte/struct equality computed in Go (drivers/c01)", "gorilla/websocket as the peer of the real wsServerConn/wsClientConn"},
+			"message-transport behaviours run mostly through the real WebSocket wrappers (both directions) in every tier; about a tenth of the stream behaviours run through the real writer writing straight onto a WebSocket wrapper and through loopback QUIC / KCP connections of the real adapters (client to server; their own segmentation is not controlled, the planned chunks are the Write sizes), the rest through the chunk-controlled reader",
+			"WritePacket is given a rate limit (64 MiB/s: the 1 KiB-write body path, no noticeable waiting) in a seeded eighth of the behaviours",
+			"a reader that has not taken a byte from the transport for 30 s (thorough 120 s) hangs (all transports are loss-free); an accept on a loopback transport that takes more than 20 s makes the behaviour inconclusive"},
+		TrustedBase: []string{"TLC", "spec/FramingTrace.tla as the reading of C01", "byte/struct equality computed in Go (drivers/c01)", "gorilla/websocket as the peer of the real wsServerConn/wsClientConn", "quic-go and kcp-go under the real QUIC / KCP connection wrappers"},
 	})
 }
